@@ -152,6 +152,15 @@ def run(chk):
                        "'garbage output' means the scheduler printed something unparsable and did NOT accept the job"]
     jobs = build_jobs(chk)
     results = common.pmap(scenario, jobs, chunk=1)
+    evaluate(chk, results)
+    # plus: uninterrupted multi-invocation histories (a later invocation must not submit a target whose accepted job
+    # is still pending/running — also on a fresh local pool, whose first job id is 0), shared history engine
+    rule, assume = chk.rule, chk.assumptions
+    HC.run_prop(chk, "C09", ["C07:local", "C07", "C07:local", "C06:local"], 48 if chk.tier == "quick" else 800, rule, assume, lambda r: True)
+    chk.exhaustive = True
+
+
+def evaluate(chk, results):
     lines, idx = [], []
     for ri, r in enumerate(results):
         if r.get("error") or "model_lines" not in r:
@@ -223,13 +232,14 @@ def run(chk):
         dup = [s["name"] for s in nxt["subs"] if s["name"] in live]
         if dup:
             viol("duplicate", "the next run submitted a second job for targets whose recorded job is still pending/running: %r" % dup)
-    # plus: uninterrupted histories with rejected submissions (shared engine), tagged C09 via the run comparator
-    chk.exhaustive = True
 
 
 def replay(chk, data):
     chk.rule = RULE
     inp = data["input"]
+    if "focus" in inp:
+        return HC.replay_prop(chk, "C09", data, RULE)
     r = scenario((inp["seed"], inp["backend"], inp["fault_cmd"], inp["fault_kind"], inp["k"], inp["crash"]))
     print(json.dumps({k: v for k, v in r.items() if k not in ("next", "model_lines")}, indent=1, default=str)[:3000])
+    evaluate(chk, [r])
     return chk.finish()
